@@ -155,6 +155,10 @@ def fanout_pipeline(tier):
             viols.append(v)
         inconclusive = [n for n in r.notes]
         items = sum(1 for x in lines if '"ev":"sub_item"' in x)
+        if summ.get("of", summ["runs"]) != summ["runs"]:
+            log("[fanout] stopped after %d of %d schedules: %d of them ran into their time limits" % (summ["runs"], summ["of"], summ.get("slow_cases", 0)))
+            if not viols:
+                raise ToolError("fan-out harness stopped early (%d slow schedules) without a verdict" % summ.get("slow_cases", 0))
         res.update({"schedules_from_model": n_model, "distinct_after_projection": n_distinct, "model_schedules_used": n_used_model,
                     "random_schedules": T["random"], "runs": summ["runs"], "events": summ["events"], "deliveries_checked": items,
                     "viol": viols[:100], "n_viol": len(viols), "inconclusive": inconclusive[:20], "n_inconclusive": len(inconclusive),
